@@ -123,6 +123,15 @@ pub mod pegc {
     pub type RWSP = RRep<RSeq2<RPush<RStr<LB>>, RStr<LC>, RNoSkip, 0>, RNoSkip, 0, 0, { usize::MAX }>;
     pub type GSkipPush<'i> = Seq3<SP1<Push<A>>, SP1<A>, SP1<PEEK_ALL<'i>>>;
     pub type XSkipPush = RSeq3<RPush<RStr<LA>>, RStr<LA>, RPeekAll, RWSP, 1>;
+    /// a BOUNDED repetition used as the skip node (NeverFailedTypedNode impl of RepeatMinMax<_, 0, MAX>): at most one blank is
+    /// skipped between elements: a ~ b ~ a with skip = " "{0,1}
+    pub type WSB = RepeatMinMax<Skipped<Str<LSP>, WS, 0>, 0, 1>;
+    pub type SB1<T> = Skipped<T, WSB, 1>;
+    pub type RWSB = RRep<RStr<LSP>, RNoSkip, 0, 0, 1>;
+    pub type GRepAsSkip = Seq3<SB1<A>, SB1<B>, SB1<A>>;
+    pub type XRepAsSkip = RSeq3<RStr<LA>, RStr<LB>, RStr<LA>, RWSB, 1>;
+    /// choices whose alternatives render alike (string literals): which alternative matched must be visible in ==, hash and Debug
+    pub type GChoiceLit = Seq2<S0<Choice2<A, B>>, S0<Choice3<A, B, Str<LC>>>>;
     /// nested repetition with optional and SOI/EOI: SOI ~ (a{1,2} ~ b?)* ~ EOI (skips between everything)
     pub type GNest = Seq3<S1<SOI>, S1<RepMin<Seq2<S1<RepMinMax<A, WS, 1, 1, 2>>, S1<Option<B>>>, WS, 1, 0>>, S1<EOI>>;
     pub type XNest = RSeq3<RSoi, RRep<RSeq2<RRep<RStr<LA>, RWS, 1, 1, 2>, ROpt<RStr<LB>>, RWS, 1>, RWS, 1, 0, { usize::MAX }>, REoi, RWS, 1>;
